@@ -178,6 +178,9 @@ impl<const S: bool> Ord for SymI<S> {
         if self.lt(o) { Less } else if self == o { Equal } else { Greater }
     }
 }
+/// `full()` of an integer colour component is the type's MAX
+impl<const S: bool> vek::ops::ColorComponent for SymI<S> { fn full() -> Self { SymI(m()) } }
+impl<const S: bool> From<u8> for SymI<S> { fn from(x: u8) -> Self { Self::konst(x as i128) } }
 impl<const S: bool> num_traits::Zero for SymI<S> { fn zero() -> Self { Self::konst(0) } fn is_zero(&self) -> bool { *self == Self::konst(0) } }
 impl<const S: bool> num_traits::One for SymI<S> { fn one() -> Self { Self::konst(1) } }
 impl<const S: bool> Sc for SymI<S> {
